@@ -29,12 +29,13 @@ import (
 // ---- helper server (cmd/protodump test binary built from the working tree) ----
 
 type req struct {
-	Data      []byte   `json:"data"`
-	Expand    []string `json:"expand"`
-	Strings   []string `json:"strings"`
-	Chunk     int      `json:"chunk"`
-	ZeroReads bool     `json:"zero_reads"`
-	ErrAfter  int      `json:"err_after"`
+	Data        []byte   `json:"data"`
+	Expand      []string `json:"expand"`
+	Strings     []string `json:"strings"`
+	Chunk       int      `json:"chunk"`
+	ZeroReads   bool     `json:"zero_reads"`
+	ErrAfter    int      `json:"err_after"`
+	EOFWithData bool     `json:"eof_with_data"`
 }
 
 type resp struct {
@@ -488,6 +489,9 @@ func runC20(t *rapid.T, w *rep.Worker, tt *testing.T) {
 		r.Chunk = rapid.IntRange(1, 7).Draw(t, "chunk")
 	}
 	r.ZeroReads = rapid.IntRange(0, 3).Draw(t, "zeroreads") == 0
+	if r.EOFWithData = rapid.IntRange(0, 2).Draw(t, "eofwithdata") == 0; r.EOFWithData {
+		w.Fault("final_read_returns_data_and_eof")
+	}
 	if len(data) > 0 && rapid.IntRange(0, 4).Draw(t, "readerr") == 0 {
 		r.ErrAfter = rapid.IntRange(0, len(data)).Draw(t, "errafter")
 		w.Fault("read_error")
